@@ -355,8 +355,18 @@ Theorem C13_phase2_space_iff :
 Proof. exact phase2_space_iff. Qed.
 Print Assumptions C13_phase2_space_iff.
 
+(** the second phase only ADDS simulated entries to those the first phase disabled: an
+    entry enabled in a bitmap pair of the space was enabled after the first phase *)
+Theorem C13_phase2_keeps_first_phase :
+  forall es cs maxdist p1 e m i,
+  In (e, m) (phase2_space es cs maxdist p1) ->
+  nth i m true = false -> nth i (snd p1) true = false.
+Proof. exact phase2_keeps_first_phase. Qed.
+Print Assumptions C13_phase2_keeps_first_phase.
+
 (** ... and "the budget allows" as an inequality: a result that pairs two events agreeing
-    in neither type nor digest, both left enabled by the first phase, has spent the whole
+    in neither type nor digest, the recorded one left enabled by the first phase (the
+    simulated one always is: C13_phase2_keeps_first_phase), has spent the whole
     budget -- its recorded bitmap differs from the first-phase one in at least
     min(DisabledEventsMaxDistance, number of recorded events) positions.  With one flip to
     spare no result contains such a pair. *)
@@ -371,9 +381,9 @@ Theorem C13_search_result_unrelated_pair_budget :
   exists d1 p1,
     In (d1, p1) (argmins (scored es cs (phase1_cands es cs))) /\
     In p (phase2_space es cs maxdist p1) /\
-    (nth (length es1) (fst p1) true = false -> nth (length cs1) (snd p1) true = false ->
+    (nth (length es1) (fst p1) true = false ->
      (p2_budget es maxdist <= hamming (fst p) (fst p1))%nat).
-Proof. exact search_result_unrelated_pair_budget. Qed.
+Proof. exact search_result_unrelated_pair_budget'. Qed.
 Print Assumptions C13_search_result_unrelated_pair_budget.
 
 (** the hypotheses are satisfiable: with DisabledEventsMaxDistance 0 the result of the
